@@ -112,6 +112,27 @@ impl Scenario for SpillUtil {
         }
         let es = entries_to_crate(&list);
         let comp = sut::comp(c.ic);
+        let p = c.pos as usize;
+        let mut pre = vec![0x3C_u8; p];
+        let mut old = vec![0u8; c.beyond as usize];
+        Rng::new(c.seed ^ 0xBE).fill(&mut old);
+        pre.extend_from_slice(&old);
+        let mut disk = SimDisk::new(pre, &c.pol).at(u64::from(c.pos)).budget(3_000_000);
+        let strat = c.start.map(|s| pmtiles2::util::WriteDirsOverflowStrategy::OnlyLeafPointers { start_size: Some(s as usize) });
+        let r = match c.face {
+            Face::Sync => sut::guard("write_directories", || pmtiles2::util::write_directories(&mut disk, &es, comp, strat))?,
+            Face::Async => sut::guard_async("write_directories_async", pmtiles2::util::write_directories_async(&mut disk, &es, comp, strat))?,
+        };
+        ctx.absorb(&disk);
+        if disk.budget_exceeded() {
+            vio!("C06:runaway", "write_directories issued more than 3·10^6 stream operations for {} entries (leaf size never converges?)", c.n);
+        }
+        let leaves = match r {
+            Ok(l) => l,
+            Err(e) => vio!("C06:write-directories-failed", "write_directories failed on a fault-free stream: {e}"),
+        };
+        // (the fit measurement comes AFTER the call under test, so that it cannot absorb state
+        // left behind by an earlier call on this thread)
         // does the whole list fit? measured with the crate's own directory serialiser of the SAME
         // face (the sync and async codec back ends may differ by a few bytes, so "fits" is
         // face-specific)
@@ -134,25 +155,6 @@ impl Scenario for SpillUtil {
         if whole_len > ROOT_BUDGET && whole_len <= 16_384 {
             ctx.bump("probe_lists_inside_the_window", 1);
         }
-        let p = c.pos as usize;
-        let mut pre = vec![0x3C_u8; p];
-        let mut old = vec![0u8; c.beyond as usize];
-        Rng::new(c.seed ^ 0xBE).fill(&mut old);
-        pre.extend_from_slice(&old);
-        let mut disk = SimDisk::new(pre, &c.pol).at(u64::from(c.pos)).budget(3_000_000);
-        let strat = c.start.map(|s| pmtiles2::util::WriteDirsOverflowStrategy::OnlyLeafPointers { start_size: Some(s as usize) });
-        let r = match c.face {
-            Face::Sync => sut::guard("write_directories", || pmtiles2::util::write_directories(&mut disk, &es, comp, strat))?,
-            Face::Async => sut::guard_async("write_directories_async", pmtiles2::util::write_directories_async(&mut disk, &es, comp, strat))?,
-        };
-        ctx.absorb(&disk);
-        if disk.budget_exceeded() {
-            vio!("C06:runaway", "write_directories issued more than 3·10^6 stream operations for {} entries (leaf size never converges?)", c.n);
-        }
-        let leaves = match r {
-            Ok(l) => l,
-            Err(e) => vio!("C06:write-directories-failed", "write_directories failed on a fault-free stream: {e}"),
-        };
         let img = disk.image();
         ensure!(img.len() >= p && img[..p].iter().all(|b| *b == 0x3C), "C06:bytes-before-start-clobbered", "bytes before the start position {p} were modified");
         let end = disk.pos() as usize;
